@@ -32,6 +32,7 @@ func checkC17(r *core.Run) {
 	c17OutLists(r, p, "R-C17-sym")
 	c17MinValueFirst(r, p)
 	c17RemoveFound(r, p)
+	c17KeyComplete(r, p)
 }
 
 // c17RemoveFound: when an output leaves the set, the entry removed from the address's list is the one that
@@ -642,4 +643,125 @@ func c17Sym(r *core.Run, p *core.Program) {
 	}
 	r.Check(okVal, rule, "total-updated", "-", "the total grows by the output's value on add and shrinks by it on delete", "the address total is not updated by exactly the output's value on add and delete")
 	_ = constant.MakeBool
+}
+
+// c17KeyComplete: the 12-byte key (transaction id prefix + output index) that is put into or looked up in
+// an address's list or map is complete when it is used: inside the loop over the outputs, every read of
+// the key variable is preceded, in the same iteration, by the write of this iteration's output index into
+// its last four bytes (a key read before that write still carries the index of the previous output).
+func c17KeyComplete(r *core.Run, p *core.Program) {
+	const rule = "R-C17-sym"
+	for _, name := range []string{"client/wallet.NewUTXO", "client/wallet.all_del_utxos"} {
+		inst := "key-complete-before-use/" + name[strings.LastIndex(name, ".")+1:]
+		fn := p.Func(name)
+		if fn == nil {
+			r.Fail(rule, inst, "-", name+" not found")
+			continue
+		}
+		loops := an.LoopBlocks(fn)
+		outIdx := map[ssa.Value]bool{}
+		for _, b := range fn.Blocks {
+			for _, i := range b.Instrs {
+				if ia, ok := i.(*ssa.IndexAddr); ok && strings.HasSuffix(an.Expr(ia.X), "param#0.Outs") {
+					outIdx[c17StripConv(ia.Index)] = true
+				}
+			}
+		}
+		var keys []*ssa.Alloc
+		for _, b := range fn.Blocks {
+			for _, i := range b.Instrs {
+				if a, ok := i.(*ssa.Alloc); ok && strings.HasSuffix(an.TypeName(an.Deref(a.Type())), "wallet.OneAllAddrInp") {
+					keys = append(keys, a)
+				}
+			}
+		}
+		if len(keys) == 0 {
+			r.Fail(rule, inst, p.Pos(fn.Pos()), "no key variable of type OneAllAddrInp in "+name)
+			continue
+		}
+		var bad []string
+		uses := 0
+		for _, a := range keys {
+			var writes []ssa.Instruction
+			for _, c := range an.CallsTo(fn, false, "(encoding/binary.littleEndian).PutUint32") {
+				args := c.Common().Args
+				sl, ok := args[len(args)-2].(*ssa.Slice)
+				if !ok || sl.X != ssa.Value(a) || sl.Low == nil {
+					continue
+				}
+				if !outIdx[c17StripConv(args[len(args)-1])] {
+					bad = append(bad, "the index written into the key at "+p.Pos(an.InstrPos(c.(ssa.Instruction)))+" is not the index of the output being processed")
+					continue
+				}
+				writes = append(writes, c.(ssa.Instruction))
+			}
+			for _, ref := range *a.Referrers() {
+				ld, ok := ref.(*ssa.UnOp)
+				if !ok || ld.Op != token.MUL || !loops[ld.Block()] {
+					continue
+				}
+				uses++
+				done := false
+				for _, w := range writes {
+					if !loops[w.Block()] {
+						continue
+					}
+					if w.Block() == ld.Block() {
+						done = done || c17Before(w, ld)
+					} else if w.Block().Dominates(ld.Block()) {
+						done = true
+					}
+				}
+				if !done {
+					bad = append(bad, "the key read at "+p.Pos(c17UsePos(ld))+" is not preceded in the same iteration by the write of the output index")
+				}
+			}
+		}
+		if uses == 0 {
+			bad = append(bad, "no use of the key inside the loop over the outputs")
+		}
+		if len(bad) > 0 {
+			sort.Strings(bad)
+			r.Fail(rule, inst, p.Pos(fn.Pos()), strings.Join(bad, "; "))
+		} else {
+			r.OK(rule, inst, p.Pos(fn.Pos()), fmt.Sprintf("%d reads of the key inside the loop, each dominated by the write of this iteration's output index", uses))
+		}
+	}
+}
+
+func c17StripConv(v ssa.Value) ssa.Value {
+	for {
+		switch x := v.(type) {
+		case *ssa.Convert:
+			v = x.X
+		case *ssa.ChangeType:
+			v = x.X
+		default:
+			return v
+		}
+	}
+}
+
+func c17Before(a, b ssa.Instruction) bool {
+	for _, i := range a.Block().Instrs {
+		if i == a {
+			return true
+		}
+		if i == b {
+			return false
+		}
+	}
+	return false
+}
+
+func c17UsePos(ld *ssa.UnOp) token.Pos {
+	if ld.Pos() != token.NoPos {
+		return ld.Pos()
+	}
+	for _, ref := range *ld.Referrers() {
+		if p := an.InstrPos(ref); p != token.NoPos {
+			return p
+		}
+	}
+	return ld.Parent().Pos()
 }
